@@ -25,15 +25,17 @@ def pcStep (numactive chanbits denshift : Nat) (coefs : List Int) (hist : List I
     let pairs := (List.zip coefs (prev.map fun y => w32 (top - y))).reverse
     (del, (adapt denshift (sg < 0) pairs 1 del).reverse)
 
-/-- the loops of `pc_block` over in [1 ..]; `hist` = the samples so far, most recent first; `acc` = residuals, reversed -/
-def pcLoop (numactive chanbits denshift : Nat) : List Int → Nat → List Int → List Int → List Int → List Int × List Int
-  | [], _, coefs, _, acc => (acc.reverse, coefs)
-  | x :: xs, j, coefs, hist, acc =>
+/-- the loops of `pc_block` over in [1 ..]; `hist` = the samples so far, most recent first; -> (residuals, coefficients) -/
+def pcLoop (numactive chanbits denshift : Nat) : List Int → Nat → List Int → List Int → List Int × List Int
+  | [], _, coefs, _ => ([], coefs)
+  | x :: xs, j, coefs, hist =>
     if j ≤ numactive then
-      pcLoop numactive chanbits denshift xs (j + 1) coefs (x :: hist) (sx chanbits (w32 (x - hist.headD 0)) :: acc)
+      let r := pcLoop numactive chanbits denshift xs (j + 1) coefs (x :: hist)
+      (sx chanbits (w32 (x - hist.headD 0)) :: r.1, r.2)
     else
-      let (d, coefs) := pcStep numactive chanbits denshift coefs hist x
-      pcLoop numactive chanbits denshift xs (j + 1) coefs (x :: hist) (d :: acc)
+      let s := pcStep numactive chanbits denshift coefs hist x
+      let r := pcLoop numactive chanbits denshift xs (j + 1) s.2 (x :: hist)
+      (s.1 :: r.1, r.2)
 
 /-- `pc_block (in, pc1, num, coefs, numactive, chanbits, denshift)` on `inp` = in [0 .. num): (pc1 [0 .. num), the 16
     coefficients afterwards) -/
@@ -45,8 +47,8 @@ def pcBlock (inp : List Int) (coefs : List Int) (numactive chanbits denshift : N
     else if numactive = 31 then
       ((xs.foldl (fun (a : List Int × Int) x => (sx chanbits (w32 (x - a.2)) :: a.1, x)) ([x0], x0)).1.reverse, coefs)
     else
-      let (pc, c) := pcLoop numactive chanbits denshift xs 1 (coefs.take numactive) [x0] [x0]
-      (pc, c ++ coefs.drop numactive)
+      let r := pcLoop numactive chanbits denshift xs 1 (coefs.take numactive) [x0]
+      (x0 :: r.1, r.2 ++ coefs.drop numactive)
 
 /-- `init_coefs (coefs, DENSHIFT_DEFAULT, kALACMaxCoefs)` -/
 def initCoefs : List Int := [38 * 512 / 16, asr (-29 * 512) 4, asr (-2 * 512) 4] ++ List.replicate 13 0
